@@ -49,8 +49,8 @@ type scenario struct {
 	// write and the link drops. Whatever the previous generation left behind (a failure run, a gauge)
 	// must not change how the new session is probed.
 	Prologue int
-	Life     int  // slow-but-alive: what the sign of life is (lifeNames)
-	Reselect bool // silent scripts: the peer deselects and re-selects the session on the same connection just before it goes dark
+	Life     int             // slow-but-alive: what the sign of life is (lifeNames)
+	Reselect bool            // silent scripts: the peer deselects and re-selects the session on the same connection just before it goes dark
 	Traffic  []time.Duration // app W-bit sends (prompt replies)
 	PeerData []time.Duration // unsolicited primaries from the peer
 }
@@ -71,21 +71,21 @@ type harness struct {
 	r  *rig.Rig
 	sc scenario
 
-	c        *refhsms.Conn
-	selAt    time.Duration
-	probes   []*probe
-	activity []time.Duration // instants a complete frame crossed the link in either direction (library's view)
-	outFrom, outTo time.Duration // the long outstanding W-bit transaction (script sOutstanding)
-	started  bool
-	stop     bool
-	endAt    time.Duration
-	seenProbes int
-	sendsDone bool
-	localSends []time.Duration
-	reselAt    time.Duration // arrival of the peer's second Select.req at the library (0 = none)
-	usedLn       int
-	prologueOn   bool // the prologue generation is running
-	prologueDone bool
+	c              *refhsms.Conn
+	selAt          time.Duration
+	probes         []*probe
+	activity       []time.Duration // instants a complete frame crossed the link in either direction (library's view)
+	outFrom, outTo time.Duration   // the long outstanding W-bit transaction (script sOutstanding)
+	started        bool
+	stop           bool
+	endAt          time.Duration
+	seenProbes     int
+	sendsDone      bool
+	localSends     []time.Duration
+	reselAt        time.Duration // arrival of the peer's second Select.req at the library (0 = none)
+	usedLn         int
+	prologueOn     bool // the prologue generation is running
+	prologueDone   bool
 }
 
 func genScenario(t *core.Tape) scenario {
@@ -170,9 +170,11 @@ func Build(config string) core.BuildFunc {
 		}
 
 		return &core.Scenario{
-			Desc:       h.describe(),
-			Horizon:    60 * time.Second,
-			Done:       func() bool { return h.started && h.c != nil && (h.c.L.A.ClosedAt >= 0 && w.Now() > h.c.L.A.ClosedAt+20*time.Millisecond || w.Now() >= h.endAt) && w.Idle() },
+			Desc:    h.describe(),
+			Horizon: 60 * time.Second,
+			Done: func() bool {
+				return h.started && h.c != nil && (h.c.L.A.ClosedAt >= 0 && w.Now() > h.c.L.A.ClosedAt+20*time.Millisecond || w.Now() >= h.endAt) && w.Idle()
+			},
 			Final:      h.final,
 			Cleanup:    func() { h.stop = true; r.Close() },
 			Nontrivial: func() bool { return h.started && len(h.probes) > 0 },
